@@ -20,8 +20,8 @@ PROPERTY = "C33"
 LEVEL = "exploration"
 RULE = ("Generated nested dict/tuple/list pytrees (depth <= 3, 1-6 leaves, leaf shapes from a fixed menu incl. "
         "0-d, length-0 and 3-d arrays, float/complex/int/bool, jax or numpy leaves, Python-scalar leaves), wrapped in "
-        "jft.Vector or bare; oracle = the same operation in NumPy on the concatenated flat arrays "
-        "(jax.flatten_util.ravel_pytree). Custom maps: generated straight-line jnp programs with 1-3 pytree "
+        "jft.Vector or bare; oracle = the same operation in NumPy on the concatenation of the raveled leaves "
+        "(jax.tree_util leaf order, cross-checked against jax.flatten_util.ravel_pytree). Custom maps: generated straight-line jnp programs with 1-3 pytree "
         "arguments and 1-4 outputs, generated in_axes/out_axes (global int, per-argument int/None, per-leaf "
         "pytrees, negative axes, None outputs); oracle = jax.vmap AND an explicit NumPy slice/stack loop.")
 LEVEL_TEXT = ("Search over generated pytrees, operators, operand kinds and axis specifications; every case compares the "
@@ -131,13 +131,23 @@ def kinds(spec, acc=None):
 
 
 def flat(tree):
-    """NumPy flat array of a pytree (Vector or bare): the reference representation"""
-    from jax.flatten_util import ravel_pytree
+    """NumPy flat array of a pytree (Vector or bare): the reference representation, i.e. the concatenation of
+    the raveled leaves in jax.tree_util order (== jax.flatten_util.ravel_pytree, see flat_self_test)"""
     from jax.tree_util import tree_leaves
-    lv = tree_leaves(tree)
+    lv = [np.ravel(np.asarray(x)) for x in tree_leaves(tree)]
     if not lv:
         return np.zeros(0)
-    return np.asarray(ravel_pytree(lv)[0])
+    return np.concatenate(lv)
+
+
+def flat_self_test(tree):
+    """harness self-test: flat() agrees with jax.flatten_util.ravel_pytree"""
+    from jax.flatten_util import ravel_pytree
+    from jax.tree_util import tree_leaves
+    if tree_leaves(tree):
+        r = np.asarray(ravel_pytree(tree)[0])
+        f = flat(tree)
+        assert r.shape == f.shape and np.array_equal(r, f), "flat() vs ravel_pytree"
 
 
 def np_leaves(tree):
@@ -653,7 +663,9 @@ def check_structure(rec):
     classes = tree_classes(rec) + ["fn_" + fn, "vector" if wrap else "bare_tree"]
     nt = nleaves(spec) >= 2 and depth(spec) >= 2
     if fn == "size_shape":
-        require(fa.size == n, "oracle_self_test", "ravel_pytree size")
+        assert fa.size == n
+        flat_self_test(a)
+        flat_self_test(A)
         s1 = jft.size(A)
         require(isinstance(s1, (int, np.integer)) and s1 == n, "size", f"{s1!r} vs {n}")
         require(jft.shape(A) == (n,), "shape", f"{jft.shape(A)!r}")
